@@ -14,7 +14,7 @@ from vlib import cli, core
 META = {
     "level": "proof",
     "technique": "Coq theorems on a Gallina model of name sanitisation and of extract_entry over an abstract file system with symbolic-link resolution and hard-link aliasing; model tied to the code by differential execution (names: every constructor; extraction: crafted hostile archives through the real binary in a snapshotted sandbox)",
-    "level_text": "Every entry name is proved to consist of Normal components only (no root, `.`, `..`, empty), joining it to the output directory stays lexically inside, and the model of the repaired extract_entry is proved to leave every path outside the output directory unobserved-changed for every archive, given an output directory that is not itself reached through a link and shares no inode with the outside. The model's predictions (exit status, set of changed paths) are compared with the real binary on crafted archives combining hostile names, links of every kind and entries beneath links.",
+    "level_text": "Proved in Coq (closed): every entry name consists of Normal components only (no root, `.`, `..`, empty) for every input string, and joined to the output directory it stays lexically inside; resolving a path none of whose proper ancestors is a symbolic link ends at the literal path (why the repaired ancestor check suffices); for EVERY archive of file and directory entries, any options, the model of the repaired extract_entry changes no observation outside an output directory that is not reached through a link, holds no link and shares no inode with the outside, and the output directory survives; the unrepaired code escapes in the same model with the two recorded witnesses and the repaired code refuses them. Partial: confinement for archives containing symbolic-link / hard-link entries (and output directories already holding links) is not proved; it rests on the differential runs, where the model's predicted exit status and exact set of changed paths agree with the real binary on crafted archives with every link kind (300 / 8 000 extractions) and the implementation-side oracle finds nothing outside the output directory created, modified, removed or hard-linked.",
     "level_note": "Trusted: Coq kernel + vm_compute; extraction and the OCaml driver (sample re-evaluated in the kernel); harness craft/codec; the abstract file system is a model of the kernel's path resolution (symlink following, O_CREAT through dangling links, link(2) not following the last component), validated only through the cases run. Races with a concurrent attacker on the output directory are outside the model.",
 }
 
